@@ -41,6 +41,10 @@ var fragments = []struct{ name, text string }{
 	{"go-noinline", "//go:noinline\nfunc N$I() {}\n"},
 	{"comment-without-space", "//foo no space\nvar W$I int\n"},
 	{"raw-string-newlines", "var R$I = `raw\n  string`\n"},
+	// blanks a text-level clean-up would drop although they are part of a token: trailing spaces / tabs / a
+	// blank-only line INSIDE a raw string, and trailing blanks after code and in comments (formatting)
+	{"raw-string-trailing-blanks", "var RB$I = `usage:  \n  demo [flags]\t\n   \nend`\n"},
+	{"trailing-blanks-in-code-and-comments", "// comment with trailing blanks   \nvar TB$I = 1 \t \n"},
 	{"composite-odd-breaks", "var L$I = []int{1,\n2,\n\n3}\n"},
 	{"block-blank-lines", "func G$I() {\n\n\n\tx := 1\n\t_ = x\n\n}\n"},
 	{"one-line-func", "func H$I() { if true { return } }\n"},
@@ -149,8 +153,8 @@ func ownDeclsOnly(decls []string) bool {
 		switch {
 		case strings.HasPrefix(d, "var Other_") && strings.HasSuffix(d, "_g2 = 1"):
 			vars[strings.TrimSuffix(strings.TrimPrefix(d, "var Other_"), "_g2 = 1")]++
-		case strings.HasPrefix(d, "func deferredHelper_") && strings.HasSuffix(d, "_g2() {}"):
-			helpers[strings.TrimSuffix(strings.TrimPrefix(d, "func deferredHelper_"), "_g2() {}")]++
+		case strings.HasPrefix(d, "func deferredHelper_") && strings.HasSuffix(d, "_g2 ( ) { }"):
+			helpers[strings.TrimSuffix(strings.TrimPrefix(d, "func deferredHelper_"), "_g2 ( ) { }")]++
 		default:
 			return false
 		}
@@ -341,10 +345,30 @@ func flatten(src []byte) (decls []string, comments []string, err error) {
 	if err != nil {
 		return nil, nil, err
 	}
+	// a declaration is compared as its TOKEN sequence (white space between tokens is formatting, white space
+	// inside a string or character literal is not)
 	pr := func(n any) string {
 		var b bytes.Buffer
 		_ = format.Node(&b, fset, n)
-		return strings.Join(strings.Fields(b.String()), " ")
+		var sc scanner.Scanner
+		fs := token.NewFileSet()
+		sc.Init(fs.AddFile("", fs.Base(), b.Len()), b.Bytes(), nil, 0)
+		var toks []string
+		for {
+			_, tok, lit := sc.Scan()
+			if tok == token.EOF {
+				break
+			}
+			if tok == token.SEMICOLON && lit == "\n" {
+				continue // inserted at a line end
+			}
+			if lit != "" {
+				toks = append(toks, lit)
+			} else {
+				toks = append(toks, tok.String())
+			}
+		}
+		return strings.Join(toks, " ")
 	}
 	for _, d := range f.Decls {
 		switch x := d.(type) {
